@@ -107,7 +107,7 @@ func c07CheckStream(c *hx.Ctx, s []byte, want []refesl.List, label string) {
 		}
 		// readers that deliver data in other portions (one byte at a time, half reads, data together with io.EOF)
 		if err == nil {
-			for _, mk := range []func(io.Reader) io.Reader{iotest.OneByteReader, iotest.HalfReader, iotest.DataErrReader} {
+			for _, mk := range []func(io.Reader) io.Reader{iotest.OneByteReader, iotest.HalfReader, iotest.DataErrReader, PausingReader, LongPausingReader} {
 				dbr, e3 := signature.ReadSignatureDatabase(mk(bytes.NewReader(s)))
 				if e3 != nil || !bytes.Equal(dbr.Bytes(), s) {
 					readerDep = fmt.Sprint(e3)
